@@ -68,6 +68,75 @@ CLAIMS.update({
         ref='DESIGN.md section 3, C04'),
 })
 
+CLAIMS.update({
+    'C05': dict(
+        technique='sector-typed abstract interpretation of decoder constructors and decode methods; registry/name '
+                  'table agreement; lint for scalar conversion of sized NumPy draws',
+        text='Partial claim. Decides: allowed_codes names exist as exported registered classes and id is the class '
+             'name; for Matching (3 configurations), BP-OSD (CSS/non-CSS, channel update on/off), union-find and both '
+             'sweep-match decoders every solver is built on a check matrix of the code, gets the syndrome of the same '
+             'rows, and its result lands in the half it corrects; decode returns a length-2n [X|Z] vector; the two '
+             'tie-break draws are converted to scalars without raising. Not decided: that PyMatching / ldpc / the '
+             'union-find implementation actually solve H c = s (quantifies over solver output).',
+        note=TRUST + 'XCubeMatchingDecoder and MBP are outside the pairing rule (DESIGN.md C05).',
+        ref='DESIGN.md section 3, C05'),
+    'C06': dict(
+        technique='whole-package effect and alias analysis with interprocedural summaries (fix-point); typestate '
+                  'check of ldpc objects over interpreted decode paths',
+        text='Decides for all 9 decoder classes and everything reachable from decode: no store through the syndrome '
+             'argument or any view of it (directly or via callees); no store anywhere in the package through arrays '
+             'handed out by the lru_cached probability_distribution; every write to state outliving the call is a '
+             'guarded lazy initialisation; per call and per ldpc object, priors are reset before decode and results '
+             'read after it; get_initial_state copies. This covers every call history because it excludes the '
+             'mechanisms by which one call can influence the next.',
+        note=TRUST + 'Trusted: third-party decode()/update_channel_probs() do not write their arguments and '
+                     'PyMatching decoding is stateless; the sweep tie-break generator may advance (allowed).',
+        ref='DESIGN.md section 3, C06'),
+    'C07': dict(
+        technique='abstract interpretation over an event algebra on {I,X,Y,Z} and exact polynomials; partial '
+                  'evaluation of the inverse-CDF loop on boundary variates',
+        text='Partial claim. Decides: probability_distribution is (1-p, r_x p, r_y p, r_z p) in (I,X,Y,Z) order, '
+             'permuted per qubit by the code\'s table; directions must sum to 1; generate pairs each letter with its '
+             'own probability, uses the caller\'s generator and pauli_to_bsf; fast_choice is the inverse CDF '
+             'including boundaries and zero-probability options; matching weights, BP-OSD priors (incl. [z|x] order) '
+             'and the conditional update are the stated marginals/conditionals. Not decided: sampled frequencies and '
+             'independence (statistical).',
+        note=TRUST,
+        ref='DESIGN.md section 3, C07'),
+    'C08': dict(
+        technique='abstract interpretation of all 13 get_deformation methods over unknown locations; interpretation '
+                  'of StabilizerCode.deform through call histories on an abstract code; symbolic interpretation of the '
+                  'noise-side permutation',
+        text='Decides: every table on every path is a permutation of X,Y,Z of the advertised family; Hadamard exactly '
+             'when qubit axis == chosen axis, invalid axes rejected, advertised = accepted names; deform maps '
+             'stabilizers and both logical families through the table of the last deformation with its kwargs, always '
+             'from the undeformed operators, and every lazily cached property equals that of a freshly deformed '
+             'object regardless of what was read before; deformed noise is p_new[P] = p_old[D(P)] with snapshot reads; '
+             'apply_deformation is the Hadamard on the flagged indices. Preservation of commutation/rank then follows '
+             'from uniform per-qubit relabelling.',
+        note=TRUST + 'copy(MethodType(bound method, obj)) re-resolves the attribute at copy time (modelled).',
+        ref='DESIGN.md section 3, C08'),
+    'C09': dict(
+        technique='sector-typed abstract interpretation (event algebra) of get_weights and the matching decoders',
+        text='Partial claim: only the clauses that make the matcher solve the right weighted problem - the matcher on '
+             'Hz is weighted by -log odds of the X-flip marginal and receives the Z-row syndrome, its result fills the X '
+             'half (dually Hx); sweep-match adds a Z-only sweep correction to an X-only matching. Minimum-weight '
+             'optimality, union-find and sweep correctability are NOT decided (solver output).',
+        note=TRUST + 'PyMatching returns a minimum-weight matching for the weights it is given.',
+        ref='DESIGN.md section 3, C09'),
+    'C13': dict(
+        technique='evaluation of registry literals; partial evaluation of the range expansion on tagged '
+                  'specifications with distinct axis sizes; symbolic interpretation of constructors and params',
+        text='Decides: every registry key is the name of its class and register_* use the class\'s own name; '
+             'expand_input_ranges and get_simulations yield exactly the Cartesian product (2x3x2x5 tagged spec, dict '
+             'and list parameter forms, list of ranges, explicit runs), each object built from its own parameters and '
+             'each decoder with its simulation\'s code/noise/rate; params of all 26 code/decoder/noise classes report '
+             'exactly the constructor arguments; recorded inputs name id/params of the held objects. Value-level '
+             'equality of re-instantiated objects is not decided.',
+        note=TRUST,
+        ref='DESIGN.md section 3, C13'),
+})
+
 NOT_APPLICABLE = {
     'C01': 'validity of a code (commutation, anticommutation pattern, GF(2) rank) is matrix algebra over every '
            'lattice size: a statement about runtime values with no clause visible in the shape of the code; the '
